@@ -418,6 +418,16 @@ def check_restored(m, k3):
             continue
         ok = _reaches_call(m, pf, 'cstl_bintree_clear', 3)
         stores = [s for s in pf.all_insts() if s.op == 'store' and resolve_addr(pf, s.o[1]).root == '$0']
+        # ... nor through another function it hands the container to (re-initialising it "as it was after init")
+        for c in pf.all_insts():
+            if c.op != 'call' or not c.callee or c.is_intrinsic() or c.callee == 'cstl_bintree_clear':
+                continue
+            g = m.pfn(c.callee)
+            if g is None or _reaches_call(m, g, 'cstl_bintree_clear', 3):
+                continue
+            hands = [k for k, o in enumerate(c.o) if isinstance(o, str) and resolve_addr(pf, o).root == '$0']
+            if hands and any(s2.op == 'store' and resolve_addr(g, s2.o[1]).root in ['$%d' % k for k in hands] for s2 in g.all_insts()):
+                stores.append(c)
         if ok and not stores:
             k3.ok(wrapper, 'delegates to cstl_bintree_clear and changes nothing else in the container')
         elif not ok:
